@@ -505,8 +505,8 @@ def rng_discipline(prog, chk):
 
 def output_order(prog, chk):
     pe = prog.body("svgdx::transform::process_events")
-    tys = [l["ty"] for l in pe.locals if "OrderIndex" in l["ty"] and "svgdx::events::OutputList" in l["ty"] and "Map<" in l["ty"]]
-    ok = bool(tys) and all(t.startswith("std::collections::BTreeMap<svgdx::types::OrderIndex") or t.startswith("&mut std::collections::BTreeMap<svgdx::types::OrderIndex") or "btree_map" in t for t in tys)
+    tys = [l["ty"] for l in pe.locals if "OrderIndex" in l["ty"] and "svgdx::events::OutputList" in l["ty"] and ("BTreeMap<" in l["ty"] or "HashMap<" in l["ty"] or "hash_map::" in l["ty"] or "btree_map::" in l["ty"])]
+    ok = any("BTreeMap<svgdx::types::OrderIndex" in t for t in tys) and not any(is_hash_ty(t) or "hash_map::" in t for t in tys)
     chk.ob(ok, "A8.output-order", "process_events:idx_output", pe.where(), "output fragments are merged through a BTreeMap keyed by OrderIndex (document order)", f"output fragments are kept in {tys} (not an ordered map)")
     pt = prog.item("svgdx::transform::process_tags", "fn")
     ok2 = pt is not None and any("std::collections::BTreeMap<svgdx::types::OrderIndex" in i for i in pt["inputs"])
